@@ -749,6 +749,28 @@ def run_case(case, ctx):
                                          "range contains the first one's")
                         w2["second_track_ms"] = tms2
                         return fail(w2)
+    if mode == "T-track" and len(req) >= 3 and not case.get("scale"):
+        # two reference tracks used in turn: a second reference with the same number of instants and the same first
+        # and last instant, other instants in between, applied to a fresh copy of the same track
+        req2 = [req[0]] + [min(req[-1], max(req[0], (a + b) // 2 + 1)) for a, b in zip(req[1:-1], req[2:])] + [req[-1]]
+        req2 = sorted(req2)
+        if req2 != list(req):
+            ref2 = gen.make_track([(float(i), -float(i), 0.0) for i in range(len(req2))], req2)
+            track3 = gen.make_track([tuple(p) for p in pts], tms)
+            src3 = _read(track3)
+            res3 = M.call(track3.resample, ref2, I.ALGO_LINEAR, tl_mode)
+            ctx.monitor("temporal.second_reference_with_the_same_ends")
+            if M.is_raised(res3):
+                return fail({"what": "resampling on a second reference track (same size and end instants as the first) raised",
+                             "raised": res3})
+            out3 = _read(track3)
+            case3 = dict(case, arg=req2)
+            w3, _ = _check_temporal(src3, out3, _expected_temporal(src3, case3, None), ctx)
+            if w3:
+                w3["history"] = ("a second reference track with the same number of instants and the same first and last "
+                                 "instant as the first one, other instants in between")
+                w3["second_reference_ms_rel_first"] = [t - tms[0] for t in req2][:20]
+                return fail(w3)
     if mode in ("T-list", "T-track"):
         # aliasing: the list of instants / the reference track belongs to the caller, who goes on using it (shifts
         # its instants for the next request, moves the reference track); the track resampled earlier must not follow
@@ -774,7 +796,8 @@ def classify(case, witness):
 _floors_base = floors
 _FLOORS_EXTRA = {'counters': {'numeric_step_lands_exactly_on_last': 50},
                  'monitors': {'temporal.same_reference_second_track': 1000, 'sample.single_instant': 1000,
-                              'temporal.result_independent_of_the_callers_instants': 5000},
+                              'temporal.result_independent_of_the_callers_instants': 5000,
+                              'temporal.second_reference_with_the_same_ends': 1000},
                  'classes': {'floordiv_operator': 300, 'step_given_as_numpy_scalar': 500,
                              'scale_hundreds_of_fixes_and_instants': 30}}
 
